@@ -117,13 +117,13 @@ func drawCase(t *rapid.T, maxOps int) Case {
 		c.Chain = rapid.IntRange(1, 6).Draw(t, "chain")
 	}
 	c.Branchable = rapid.IntRange(0, 5).Draw(t, "branchable") == 0
-	c.P2P = rapid.IntRange(0, 5).Draw(t, "p2p") == 0
+	c.P2P = rapid.IntRange(0, 4).Draw(t, "p2p") == 0
 	if c.P2P {
 		// the replicator peer runs the same merge path in the same process and logs its failures
 		// through the same logger: with harness-published merges the two could not be told apart
 		c.Chain = 0
 	}
-	c.SharedTxn = rapid.IntRange(0, 9).Draw(t, "sharedTxn") < 4
+	c.SharedTxn = rapid.IntRange(0, 9).Draw(t, "sharedTxn") < 5
 	// "search past a defect": half of the cases avoid the triggers of the listed findings
 	avoid := rapid.Bool().Draw(t, "avoidKnown")
 	c.Warm = avoid && rec.IsKnown(sigLazyTypes)
